@@ -319,9 +319,20 @@ func cLU(m []complex128, n int, tiny float64) []int {
 	return piv
 }
 
-// cSolve solves M x = b given the LU factors (conjTrans: Mᴴ x = b).
+// cSolve solves M x = b given the LU factors (conjTrans: Mᴴ x = b) up to a
+// positive scalar factor: whenever an entry exceeds 1e150 in magnitude the
+// whole vector (computed part and remaining right-hand side) is scaled down,
+// so nearly singular systems do not overflow. Only the direction of x is used
+// by the caller.
 func cSolve(lu []complex128, piv []int, n int, b []complex128, conjTrans bool) []complex128 {
 	x := append([]complex128(nil), b...)
+	tame := func(i int) {
+		if a := cmplx.Abs(x[i]); a > 1e150 || math.IsInf(a, 0) {
+			for k := range x {
+				x[k] *= 1e-150
+			}
+		}
+	}
 	if !conjTrans {
 		for k := 0; k < n; k++ {
 			if p := piv[k]; p != k {
@@ -334,6 +345,7 @@ func cSolve(lu []complex128, piv []int, n int, b []complex128, conjTrans bool) [
 				s -= lu[i*n+k] * x[k]
 			}
 			x[i] = s
+			tame(i)
 		}
 		for i := n - 1; i >= 0; i-- {
 			s := x[i]
@@ -341,17 +353,18 @@ func cSolve(lu []complex128, piv []int, n int, b []complex128, conjTrans bool) [
 				s -= lu[i*n+k] * x[k]
 			}
 			x[i] = s / lu[i*n+i]
+			tame(i)
 		}
 		return x
 	}
-	// Mᴴ = Uᴴ Lᴴ Pᵀ... with P M = L U: Mᴴ = Uᴴ Lᴴ P, so solve Uᴴ y = b,
-	// Lᴴ z = y, x = Pᵀ z.
+	// P M = L U, hence Mᴴ = Uᴴ Lᴴ P: solve Uᴴ y = b, Lᴴ z = y, x = Pᵀ z.
 	for i := 0; i < n; i++ {
 		s := x[i]
 		for k := 0; k < i; k++ {
 			s -= cmplx.Conj(lu[k*n+i]) * x[k]
 		}
 		x[i] = s / cmplx.Conj(lu[i*n+i])
+		tame(i)
 	}
 	for i := n - 1; i >= 0; i-- {
 		s := x[i]
@@ -359,6 +372,7 @@ func cSolve(lu []complex128, piv []int, n int, b []complex128, conjTrans bool) [
 			s -= cmplx.Conj(lu[k*n+i]) * x[k]
 		}
 		x[i] = s
+		tame(i)
 	}
 	for k := n - 1; k >= 0; k-- {
 		if p := piv[k]; p != k {
@@ -454,6 +468,14 @@ func eigBackwardError(a *ref.M, wr, wi, accept float64) float64 {
 		return best
 	}
 	// Rigorous value.
+	if wi == 0 {
+		e := a.Clone()
+		for i := 0; i < n; i++ {
+			e.D[i*n+i] -= wr
+		}
+		sv := ref.SingularValues(e)
+		return math.Min(best, sv[len(sv)-1])
+	}
 	e := ref.New(2*n, 2*n)
 	for i := 0; i < n; i++ {
 		for j := 0; j < n; j++ {
